@@ -33,6 +33,7 @@ def check(ctx: Ctx) -> None:
     r3(ctx)
     r4(ctx)
     r5(ctx)
+    r11(ctx)
     # every scan API prunes files by bounds before filtering: the pruning decision and the bound codec are part of
     # "returns exactly the rows satisfying the filter"
     from .c13 import r1r2 as c13_r1r2, r4 as c13_r4, r5r6 as c13_r5r6
@@ -262,6 +263,154 @@ def handler_returns(ctx: Ctx, f: FunctionInfo, v: ast.AST) -> List[ast.AST]:
     if isinstance(v, ast.Name) and v.id in f.nested:
         return [n.value for n in ast.walk(f.nested[v.id].node) if isinstance(n, ast.Return) and n.value is not None]
     return []
+
+
+class _NoEval(Exception):
+    pass
+
+
+def _cval(e: ast.AST, env: Dict[str, object], fld: str, exprn: str) -> object:
+    """Concrete value of a handler expression for ONE non-NULL row (field value env[fld]) and literal env['@value']:
+    pyarrow expression operators are read with their documented row-level meaning (the trusted base of R3)."""
+    if isinstance(e, ast.Constant):
+        return e.value
+    if isinstance(e, ast.Name):
+        if e.id in env:
+            return env[e.id]
+        raise _NoEval(e.id)
+    if isinstance(e, ast.Attribute):
+        if dotted(e) == f"{exprn}.value":
+            return env["@value"]
+        raise _NoEval(dotted(e) or "attribute")
+    if isinstance(e, ast.Compare) and len(e.ops) == 1:
+        a, b = _cval(e.left, env, fld, exprn), _cval(e.comparators[0], env, fld, exprn)
+        t = type(e.ops[0])
+        table = {ast.Eq: lambda: a == b, ast.NotEq: lambda: a != b, ast.Lt: lambda: a < b, ast.LtE: lambda: a <= b,
+                 ast.Gt: lambda: a > b, ast.GtE: lambda: a >= b, ast.Is: lambda: a is b, ast.IsNot: lambda: a is not b,
+                 ast.In: lambda: a in b, ast.NotIn: lambda: a not in b}
+        if t not in table:
+            raise _NoEval(t.__name__)
+        return table[t]()
+    if isinstance(e, ast.BinOp) and isinstance(e.op, (ast.BitAnd, ast.BitOr)):
+        a, b = bool(_cval(e.left, env, fld, exprn)), bool(_cval(e.right, env, fld, exprn))
+        return (a and b) if isinstance(e.op, ast.BitAnd) else (a or b)
+    if isinstance(e, ast.UnaryOp) and isinstance(e.op, (ast.Invert, ast.Not)):
+        return not bool(_cval(e.operand, env, fld, exprn))
+    if isinstance(e, ast.BoolOp):
+        vals = [_cval(v, env, fld, exprn) for v in e.values]
+        return all(vals) if isinstance(e.op, ast.And) else any(vals)
+    if isinstance(e, (ast.ListComp, ast.GeneratorExp)) and len(e.generators) == 1 and isinstance(e.generators[0].target, ast.Name):
+        gen = e.generators[0]
+        out = []
+        for x in _cval(gen.iter, env, fld, exprn):  # type: ignore[union-attr]
+            env2 = dict(env, **{gen.target.id: x})
+            if all(_cval(c, env2, fld, exprn) for c in gen.ifs):
+                out.append(_cval(e.elt, env2, fld, exprn))
+        return out
+    if isinstance(e, (ast.List, ast.Tuple)):
+        return [_cval(x, env, fld, exprn) for x in e.elts]
+    if isinstance(e, ast.Call):
+        fn = dotted(e.func) or ""
+        leaf = fn.split(".")[-1]
+        if fn in (f"{fld}.is_valid",) or (leaf == "is_valid" and e.args and dotted(e.args[0]) == fld):
+            return True
+        if fn in (f"{fld}.is_null",) or (leaf == "is_null" and e.args and dotted(e.args[0]) == fld):
+            return False
+        if leaf == "is_in" or fn == f"{fld}.isin":
+            vs = next((k.value for k in e.keywords if k.arg == "value_set"), None)
+            if vs is None:
+                vs = e.args[-1] if e.args else None
+            if vs is None:
+                raise _NoEval("is_in without a value set")
+            return env[fld] in _cval(vs, env, fld, exprn)  # type: ignore[operator]
+        if leaf in ("array", "list", "set", "tuple", "frozenset") and e.args:
+            return list(_cval(e.args[0], env, fld, exprn))  # type: ignore[call-overload]
+        if leaf == "scalar" and e.args:
+            return _cval(e.args[0], env, fld, exprn)
+        if leaf == "invert" and e.args:
+            return not bool(_cval(e.args[0], env, fld, exprn))
+        if leaf in ("and_", "and_kleene") and len(e.args) == 2:
+            return bool(_cval(e.args[0], env, fld, exprn)) and bool(_cval(e.args[1], env, fld, exprn))
+        if leaf in ("or_", "or_kleene") and len(e.args) == 2:
+            return bool(_cval(e.args[0], env, fld, exprn)) or bool(_cval(e.args[1], env, fld, exprn))
+        if leaf in ("equal", "not_equal", "less", "less_equal", "greater", "greater_equal") and len(e.args) == 2:
+            a, b = _cval(e.args[0], env, fld, exprn), _cval(e.args[1], env, fld, exprn)
+            return {"equal": a == b, "not_equal": a != b, "less": a < b, "less_equal": a <= b,  # type: ignore[operator]
+                    "greater": a > b, "greater_equal": a >= b}[leaf]  # type: ignore[operator]
+        if leaf == "len" and e.args:
+            return len(_cval(e.args[0], env, fld, exprn))  # type: ignore[arg-type]
+        if leaf == "bool" and e.args:
+            return bool(_cval(e.args[0], env, fld, exprn))
+        raise _NoEval("call " + fn)
+    raise _NoEval(type(e).__name__)
+
+
+def _run_handler(ctx: Ctx, f: FunctionInfo, v: ast.AST, env: Dict[str, object], fld: str, exprn: str) -> object:
+    """Value of one handler (a lambda, or a nested function interpreted over its CFG) for one row / literal."""
+    if isinstance(v, ast.Lambda):
+        return _cval(v.body, env, fld, exprn)
+    if isinstance(v, ast.Name) and v.id in f.nested:
+        nf = f.nested[v.id]
+        g = ctx.cfg(nf)
+        cur: Optional[int] = g.entry
+        envl = dict(env)
+        for _ in range(300):
+            if cur is None or cur == g.exit:
+                return None
+            n = g.nodes[cur]
+            if n.kind == "return":
+                return _cval(n.ast.value, envl, fld, exprn) if n.ast.value is not None else None  # type: ignore[union-attr]
+            if n.kind == "raise":
+                raise _NoEval("raise")
+            if n.kind == "branch" and n.ast is not None:
+                cur = edge_target(g, n, "true" if _cval(n.ast, envl, fld, exprn) else "false")
+                continue
+            if n.kind == "stmt" and isinstance(n.ast, ast.Assign) and len(n.ast.targets) == 1 and isinstance(n.ast.targets[0], ast.Name):
+                envl[n.ast.targets[0].id] = _cval(n.ast.value, envl, fld, exprn)
+            nxt = [d for d, l in g.succ[cur] if l in NORMAL]
+            cur = nxt[0] if nxt else None
+        raise _NoEval("no result within 300 steps")
+    raise _NoEval("handler " + norm_text(v))
+
+
+def r11(ctx: Ctx) -> None:
+    ctx.rule("C12.R11", "each operator's handler has its SQL meaning on non-NULL rows: for every field value and literal of a small "
+             "ordered domain the handler's expression (pyarrow operators read row-wise) equals the operator's predicate", 10)
+    from .c13 import OPS
+    f, d = handler_table(ctx)
+    fld = f.params[1].name if len(f.params) > 1 else "field"
+    exprn = f.params[0].name if f.params else "expr"
+    dom = (0, 1, 2)
+    for k, v in zip(d.keys, d.values):
+        op = k.attr if isinstance(k, ast.Attribute) else norm_text(k)
+        if op in ("IN", "NOT_IN"):
+            lits: List[object] = [[], [0], [1, 2], [0, None], [None], [2, 2]]
+            want = (lambda x, lit: x in [y for y in lit if y is not None]) if op == "IN" else \
+                (lambda x, lit: x not in [y for y in lit if y is not None])
+        elif op == "IS_NULL":
+            lits, want = [None], (lambda x, lit: False)
+        elif op == "IS_NOT_NULL":
+            lits, want = [None], (lambda x, lit: True)
+        elif op in OPS:
+            lits, want = list(dom), OPS[op]
+        else:
+            ctx.ob("C12.R11", f, f"{op}: operator has a known predicate", None, False, "no row-level semantics known", text=op)
+            continue
+        bad = None
+        cells = 0
+        try:
+            for x in dom:
+                for lit in lits:
+                    got = bool(_run_handler(ctx, f, v, {fld: x, "@value": lit}, fld, exprn))
+                    cells += 1
+                    if got != bool(want(x, lit)) and bad is None:
+                        bad = f"field={x}, literal={lit!r}: handler gives {got}, {op} means {bool(want(x, lit))}"
+        except _NoEval as u:
+            ctx.ob("C12.R11", f, f"{op}: handler is in the interpreted expression language", None, False,
+                   f"`{norm_text(v)[:60]}` uses `{u}` which the row-wise interpreter does not model", text=op)
+            continue
+        ctx.ob("C12.R11", f, f"{op}: handler == predicate on every (value, literal) cell", None, bad is None,
+               f"{cells} cells; " + (bad or "all agree"), text=op)
 
 
 def r3(ctx: Ctx) -> None:
